@@ -16,6 +16,7 @@ RULE = (
     "alphabet, the all-extreme corner). GetKey request: SD length 0..40 x root key id {absent,present} x (l0,l1,l2) in {-1,0,31,2^31-1}^3. GetKey response: envelope lengths over every residue mod 8 "
     "(domain length 0..8 x forest 0..1) x HRESULT {0, 0x80070005, 0x80070002 with NULL pointer}. Oracle: x.pack() == reference bytes; X.unpack(x.pack()) == x; X.unpack(reference bytes) == x; non-zero "
     "HRESULT => ValueError. Distinct by (structure, field values)."
+    ' Also the RFC 5114 group with one field altered at a time; and the GetKey stub as the CLIENT sends it (decoded by the reference DC) for blobs at L0 in {361,0,1} x 8 (L1,L2) positions with 0 at every level, sync and async, and for protect with / without root key id.'
 )
 ASSUME = ["ref/gkdi.py structure codecs calibrated on the captured structures in tests/data and the Windows blobs"]
 BOUND = {"quick": "pairs over reduced alphabets", "thorough": "pairs over the full alphabets, triples for the key identifier"}
